@@ -164,6 +164,20 @@ CHECKS = {
              "are outside the grammar; route prefixes are ASCII.",
         tech="Lean 4 proof over a urllib/posixpath model + differential correspondence (href prediction and dereference)",
         ref="5/C16"),
+    "C17": dict(
+        text="The multiget driver is modelled in Lean (read_href_element, href_to_path, the two loops of "
+             "_get_resources_by_hrefs with their insertion-ordered dictionaries, the data properties' supported_on) on "
+             "the HTTP world model; proved for every list of hrefs and every world: the response hrefs are a "
+             "permutation of the distinct requested hrefs (each exactly once), the answer for an href is a function of "
+             "that href alone (independence), data is served only for a member of the right kind and then with the "
+             "ETag and body GET serves, everything else is 404/no data, an emitted href reads back as its path, the "
+             "mount point is a boundary. Tied to /repo by replaying every multiget of generated histories on the "
+             "model, by a by-construction oracle against GET, and by re-asking hrefs alone; both front ends.",
+        note="absolute URLs on another host are answered like their path (the code does not know its host name) and "
+             "are not judged; XML transport normalises CRLF in the data, compared modulo that; urlsplit's authority "
+             "handling is in the model only for ASCII authorities without brackets.",
+        tech="Lean 4 invariant proof over the request loop + refinement to a per-href spec + differential correspondence",
+        ref="5/C17"),
 }
 
 NOT_YET = {}
